@@ -39,15 +39,15 @@ func SegLen(segs []Seg) int {
 
 // SyslogLine is a syslog record by components.
 type SyslogLine struct {
-	Pri    string `json:"pri"` // text between '<' and '>'
-	Ver    string `json:"ver"` // normally "1"
-	Time   []byte `json:"time"`
-	Host   []byte `json:"host"`
-	App    []byte `json:"app"`
-	Pid    []byte `json:"pid"`
-	MsgID  []byte `json:"msgid"`
-	SD     []byte `json:"sd"`
-	Msg    []Seg  `json:"msg"`
+	Pri   string `json:"pri"` // text between '<' and '>'
+	Ver   string `json:"ver"` // normally "1"
+	Time  []byte `json:"time"`
+	Host  []byte `json:"host"`
+	App   []byte `json:"app"`
+	Pid   []byte `json:"pid"`
+	MsgID []byte `json:"msgid"`
+	SD    []byte `json:"sd"`
+	Msg   []Seg  `json:"msg"`
 }
 
 // Bytes renders the line (without trailing newline).
